@@ -18,6 +18,7 @@ CHECKS = {
  'C08': ('model_checking', 'open tables of FatApi: handle freshness, stale handles, limits, close-volume rules, has_open_handles, LockError for every result-returning method inside both callbacks', 'TLA+ trace validation: FatApi open tables and limits', '7 C08'),
  'C09': ('model_checking', 'history variable dur (set at successful flush/close, cleared when a modifying call begins); Durable evaluated by TLC on the medium after EVERY later block write; library remount of write-log prefixes', 'TLA+ invariant Durable on every device-write state + crash remounts', '7 C09'),
  'C10': ('model_checking', 'CrashSafe evaluated by TLC on the medium after every block write of every mutating operation (poisoned free clusters), plus library mounts of write-log prefixes', 'TLA+ invariant CrashSafe on every device-write state + crash remounts', '7 C10'),
+ 'C11': ('fault_enumeration', 'every device-call index of every fault-suite history is failed in turn (read buffer scribbled); TLC validates each whole run: the faulted call must return an error, objects not involved must be intact on the medium (Refines restricted to them), no directory may hold a name twice; the involved object is re-read from the medium and the rest of the history (every handle used and closed, read-only calls retried, remount) is validated as usual', 'single-fault enumeration over device-call indices; outcomes decided by TLC (FatTrace.TRetFault + normal validation of the continuation)', '7 C11'),
  'C12': ('model_checking', 'the real SdCard driver runs against a simulated card that is a transcription of spec/SdCard.tla; TLC validates every bus event and every call result: reads return the card memory at the addressed blocks, writes change exactly those blocks, capacity = SdCard.CsdBlocks(register), kind identified; kinds x CRC x capacities x timings', 'TLA+ trace validation of driver/card conversations against SdCard.tla (SdTrace)', '7 C12'),
  'C13': ('fault_enumeration', 'one card misbehaviour per scenario from the C13 menu (silent, error bits, bad echo, never ready, no/err/bad token, bit flips and bursts, rejected writes, busy for ever, status errors, SPI error at byte k, card dying at byte k with 0xFF/0x00) at every stage; TLC checks each call outcome against the rules of SdTrace and the traffic budget', 'fault enumeration over the SdCard.tla misbehaviour menu, outcomes decided by TLC (SdTrace)', '7 C13'),
  'C14': ('model_checking', 'SdCard.HostLegalWhy is evaluated by TLC on every command frame, data block and token the driver puts on the bus in every C12/C13 scenario, including calls after errors and re-initialisation', 'TLA+ protocol acceptor (SdCard.HostLegalWhy) over every recorded bus event', '7 C14'),
